@@ -8,6 +8,9 @@ package store
 //@ pure func depsOk(u *UseCase) bool =
 //@     u != nil && u.dir != nil && u.cRepo != nil && u.cfRepo != nil && u.fRepo != nil && u.txRepo != nil && u.idGen != nil
 
+//@ pure func versionsKept() bool = forall c string :: world.hasRec[c] == old(world.hasRec[c]) && world.recTx[c] == old(world.recTx[c]) &&
+//@                                     world.recKey[c] == old(world.recKey[c]) && world.recSeq[c] == old(world.recSeq[c])
+
 // ---- interfaces ----
 
 //@ iface txRepository.Get
@@ -23,21 +26,44 @@ package store
 //@ iface fileRepository.GetFiles
 //@   params ctx, txId, filter
 //@   ensures distinct: result1 == nil ==> forall i, j int :: 0 <= i && i < j && j < len(result0) ==> result0[i].Key != result0[j].Key
+// Store (usecase/core behind it): appends one version record; nothing durable changes when it fails.
 //@ iface fileRepository.Store
 //@   params ctx, file
+//@   requires txid:  file.TxId != ""
+//@   modifies world.recSeq, world.recTx, world.recKey, world.hasRec
+//@   ensures ok:     result == nil ==> world.hasRec[file.ContentId] && world.recTx[file.ContentId] == file.TxId && world.recKey[file.ContentId] == file.Key
+//@   ensures failed: result != nil ==> forall c string :: world.hasRec[c] == old(world.hasRec[c]) && world.recTx[c] == old(world.recTx[c]) &&
+//@                      world.recKey[c] == old(world.recKey[c]) && world.recSeq[c] == old(world.recSeq[c])
+//@   ensures others: forall c string :: c != file.ContentId ==> world.hasRec[c] == old(world.hasRec[c]) && world.recTx[c] == old(world.recTx[c]) &&
+//@                      world.recKey[c] == old(world.recKey[c]) && world.recSeq[c] == old(world.recSeq[c])
 //@ iface contentFileRepository.Get
 //@   params ctx, id
 //@   ensures found:   result1 == nil ==> world.hasCRec[id] && result0.Id == id && result0.Parent == world.cParent[id]
 //@   ensures missing: is(result1, fs_db.ErrNotFound) ==> result1 != nil && !world.hasCRec[id]
-//@   ensures norec:   !world.hasCRec[id] ==> result1 != nil
+//@   ensures norec:   !world.hasCRec[id] ==> result1 != nil && is(result1, fs_db.ErrNotFound)
 //@ iface contentFileRepository.Store
 //@   params ctx, file
+//@   modifies world.hasCRec, world.cParent
+//@   ensures ok:     result == nil ==> world.hasCRec[file.Id] && world.cParent[file.Id] == file.Parent
+//@   ensures failed: result != nil ==> world.hasCRec[file.Id] == old(world.hasCRec[file.Id]) && world.cParent[file.Id] == old(world.cParent[file.Id])
+//@   ensures others: forall c string :: c != file.Id ==> world.hasCRec[c] == old(world.hasCRec[c]) && world.cParent[c] == old(world.cParent[c])
 //@ iface contentRepository.Get
 //@   params ctx, path
+//@   ensures found:   result1 == nil ==> result0 != nil && world.hasBlob[path] && streamOf(result0) == world.blob[path]
+//@   ensures missing: !world.hasBlob[path] ==> result1 != nil && is(result1, fs_db.ErrNotFound)
+// Store writes the whole stream to path, or reports why not; when the root ran out of space the error
+// carries (as model.NotEnoughSpaceError) readers that replay the stream from its beginning.
 //@ iface contentRepository.Store
 //@   params ctx, path, content
+//@   modifies world.hasBlob, world.blob
+//@   ensures ok:     result == nil ==> world.hasBlob[path] && world.blob[path] == streamOf(content)
+//@   ensures others: forall p string :: p != path ==> world.hasBlob[p] == old(world.hasBlob[p]) && world.blob[p] == old(world.blob[p])
+//@   ensures replay: as(result, model.NotEnoughSpaceError) ==>
+//@                      cat3(streamOf(asval(result, model.NotEnoughSpaceError).Start), streamOf(asval(result, model.NotEnoughSpaceError).Middle),
+//@                           streamOf(asval(result, model.NotEnoughSpaceError).End)) == streamOf(content)
 //@ iface dirUsecase.Get
 //@   params ctx
+//@   modifies world.dirCnt, model.Dir.*, mem[string]
 //@ iface generator.Generate
 //@   ensures fresh: uuidCanonical(result) && !world.hasCRec[result] && !world.hasRec[result]
 
@@ -53,6 +79,10 @@ package store
 //@   exitassert rr:      (tx.IsoLevel == fs_db.IsoLevelRepeatableRead || tx.IsoLevel == fs_db.IsoLevelSerializable) ==>
 //@                          filter.TxId != nil && *filter.TxId == model.MainTxId && filter.BeforeSeq != nil && *filter.BeforeSeq == tx.Seq
 //@   exitassert own:     result1 == nil ==> tx.Id == ctxTxId(ctx)
+// the bytes handed out are those stored under the content id of the version the core selected; a version
+// without a content record (a tombstone) reads as ErrNotFound
+//@   exitassert bytes:   result1 == nil ==> world.hasCRec[f.ContentId] && result0 != nil &&
+//@                          streamOf(result0) == world.blob[pathJoin(world.cParent[f.ContentId], f.ContentId)]
 
 // ---- GetKeys: sorted, duplicate-free, exactly the keys of the visible versions that have a content record ----
 //@ func (*UseCase).GetKeys
@@ -79,4 +109,32 @@ package store
 // ---- Delete: a tombstone version (fresh content id without a content record) in the caller's transaction ----
 //@ func (*UseCase).Delete
 //@   requires deps:      depsOk(u)
+//@   modifies world.recSeq, world.recTx, world.recKey, world.hasRec
+//@   ensures  notrace:   result != nil ==> versionsKept()
+//@   ensures  tombstone: result == nil ==> exists c string :: world.hasRec[c] && !old(world.hasRec[c]) && !world.hasCRec[c] && world.recKey[c] == key && world.recTx[c] == ctxTxId(ctx) &&
+//@                          forall d string :: d != c ==> world.hasRec[d] == old(world.hasRec[d]) && world.recTx[d] == old(world.recTx[d]) &&
+//@                             world.recKey[d] == old(world.recKey[d]) && world.recSeq[d] == old(world.recSeq[d])
 //@   ensures  finished_tx_rejected: !txKnown(ctxTxId(ctx)) ==> result != nil && is(result, fs_db.ErrTxNotFound)
+
+// ---- Set: content, then content record, then version record ----
+// vUnchanged: no version record changed.
+//@ func (*UseCase).Set
+//@   requires deps:      depsOk(u)
+//@   modifies world.recSeq, world.recTx, world.recKey, world.hasRec, world.hasCRec, world.cParent, world.hasBlob, world.blob, model.Dir.*
+//@   ensures  emptykey:  key == "" ==> result == fs_db.ErrEmptyKey
+//@   ensures  emptynop:  key == "" ==> versionsKept() && forall c string :: world.hasCRec[c] == old(world.hasCRec[c]) && world.hasBlob[c] == old(world.hasBlob[c])
+//@   ensures  notrace:   result != nil ==> versionsKept()
+//@   exitassert version: result == nil ==> world.hasRec[file.ContentId] && world.recTx[file.ContentId] == ctxTxId(ctx) && world.recKey[file.ContentId] == key &&
+//@                          file.ContentId == cFile.Id && !old(world.hasRec[file.ContentId]) && !old(world.hasCRec[file.ContentId])
+//@   exitassert onlyone: result == nil ==> forall c string :: c != file.ContentId ==> world.hasRec[c] == old(world.hasRec[c]) && world.recTx[c] == old(world.recTx[c]) &&
+//@                          world.recKey[c] == old(world.recKey[c]) && world.recSeq[c] == old(world.recSeq[c])
+//@   exitassert record:  result == nil ==> world.hasCRec[cFile.Id] && world.cParent[cFile.Id] == cFile.Parent
+//@   exitassert complete: result == nil ==> world.hasBlob[pathJoin(cFile.Parent, cFile.Id)] && world.blob[pathJoin(cFile.Parent, cFile.Id)] == streamOf(old(content))
+//@   ensures  finished_tx_rejected: !txKnown(ctxTxId(ctx)) ==> result != nil && is(result, fs_db.ErrTxNotFound)
+//@ loop (*UseCase).Set>(Dirs).Iterate$2#1
+//@   invariant jump:    jump$1 == 0
+//@   invariant idx:     -1 <= rangeindex && rangeindex + 1 <= len(ds)
+//@   decreases len(ds) - rangeindex
+//@   invariant id:      file.ContentId == cFile.Id && file.Key == key && file.TxId == ctxTxId(ctx) && key != ""
+//@   invariant stream:  streamOf(content) == streamOf(old(content))
+//@   invariant kept:    versionsKept() && forall c string :: world.hasCRec[c] == old(world.hasCRec[c])
